@@ -28,7 +28,7 @@ def calls_named(body, pred):
     return out
 
 
-def path_counts(body, weight, start=0, cap=2, removed=(), limit=400000):
+def path_counts(body, weight, start=0, cap=2, removed=(), limit=400000, stops=()):
     """set of capped event counts over all acyclic-in-state paths from `start` to a Return.
     weight: dict bb -> int (events in that block) or bb -> set of ints (callee summaries)."""
     sc = body.succ()
@@ -49,8 +49,10 @@ def path_counts(body, weight, start=0, cap=2, removed=(), limit=400000):
         ws = w if isinstance(w, (set, frozenset, list, tuple)) else [w]
         for wi in ws:
             c2 = min(cap, c + wi)
-            if body.blocks[b]["t"]["k"] == "ret":
+            if body.blocks[b]["t"]["k"] == "ret" or b in stops:
                 res.add(c2)
+                if b in stops:
+                    continue
             for y in sc[b]:
                 if (b, y) in removed:
                     continue
